@@ -713,6 +713,11 @@ def run(prog, rep, tier, repo):
     rep.floor('stride', 2, 'design-matrix accesses in gradient and information')
     for kk in eng.visited:
         rep.touch(kk)
+    # ---- the fit uses every observation: a value filter on the way must keep every finite value
+    from ..precond import check_data_filters
+    check_data_filters(prog, rep, 'data-filter', sorted(k for k, b in pdb.bodies.items() if k.startswith('predict::glms::') and b.kind != 'closure'),
+                       what='so the model is fitted to a subset of the data')
+    rep.floor('data-filter', 1, 'scan of predict::glms::')
     return {}
 
 
